@@ -48,7 +48,7 @@ type op struct {
 func TestC19(t *testing.T) {
 	rec := mon.Open("C19")
 	defer rec.Finish(t)
-	n := rec.N(20000, 2000000)
+	n := rec.N(100000, 2000000)
 	for c := 0; c < n; c++ {
 		if !rec.Mine(c) {
 			continue
